@@ -82,7 +82,7 @@ def run(names):
             props = [prop] + [p for p in sys.argv_extra if p != prop] if hasattr(sys, 'argv_extra') else [prop]
             out = {}
             for p in props:
-                rc, o = sh('./check %s --tier quick' % p, cwd=VERIF)
+                rc, o = sh('./check %s --tier quick' % p, cwd=VERIF, env={'VERIF_EVIDENCE_DIR': '/var/tmp/vx/seed-evidence'})
                 viol = [l for l in o.split('\n') if l.startswith('VIOLATION')]
                 und = [l for l in o.split('\n') if l.startswith('UNDECIDED')]
                 out[p] = (rc, viol[:3], und[:3])
